@@ -376,6 +376,10 @@ def task_bounded(I, seed, k):
             report('C16.bounded.vcard_one_content_line_per_value', probs, dict(call='make_vcard_data(**%r)' % kw, payload=pl), dict(fn='replay_payload', builder='vcard', kw=repr(kw)))
         elif which == 3:
             lat, lng = round(rnd.uniform(-90, 90), rnd.randrange(0, 8)), round(rnd.uniform(-180, 180), rnd.randrange(0, 8))
+            if rnd.random() < 0.5:
+                # magnitudes that tempt a formatter into exponent notation or into dropping digits: tiny values, whole numbers ending in 0, 8 decimals after 3 integer digits
+                lat, lng = rnd.choice([(0.00005, -0.00005), (1e-07, 100.12345678), (-89.99999999, 179.99999999), (51.47789, -5e-05), (0, 0), (40, -120), (0.5, 100.00000001),
+                                       (-0.00000001, 0.00000001), (10.0, 100.0), (90, -180)])
             pl = H.make_geo_data(lat, lng)
             report('C16.bounded.geo_uri_carries_the_numbers', P.check_geo(pl, lat, lng), dict(call='make_geo_data(%r, %r)' % (lat, lng), payload=pl), dict(fn='replay_payload', builder='geo', kw=repr(dict(lat=lat, lng=lng))))
         elif which == 4:
